@@ -102,8 +102,21 @@ func (s *Server) Port() string {
 }
 
 func (s *Server) listenAndServe(addr string, handler http.Handler, context hap.Context) error {
-	server := http.Server{Addr: addr, Handler: handler}
+	server := http.Server{Addr: addr, Handler: handler, ConnState: connState}
 	return server.Serve(s)
+}
+
+// connState lets a connection know when a request is handled, so that notifications
+// are not written into the middle of a response.
+func connState(conn net.Conn, state http.ConnState) {
+	if c, ok := conn.(*hap.Connection); ok {
+		switch state {
+		case http.StateActive:
+			c.SetHandlingRequest(true)
+		case http.StateIdle:
+			c.SetHandlingRequest(false)
+		}
+	}
 }
 
 func (s *Server) addrString() string {
